@@ -4,9 +4,10 @@ import worldhist as WH
 import worldgen as W
 import radlib as R
 ID = "C04"
-LEAN_TARGETS = ["Rsp.Props.C04", "Rsp.Props.Parse"]
+LEAN_TARGETS = ["Rsp.Props.C04", "Rsp.Props.Parse", "Rsp.Props.StreamClient"]
 THEOREMS = ["Rsp.Props.C04.replyh_reject_changes_nothing", "Rsp.Props.C04.accepts_implies_authentic", "Rsp.Props.C04.replyh_ret0_iff",
-            "Rsp.Props.Parse.parse_meets_spec"]
+            "Rsp.Props.Parse.parse_meets_spec",
+            "Rsp.Props.StreamClient.clientRd_refused_resets", "Rsp.Props.StreamClient.clientRd_accepted_reads_on"]
 RULE = ("the real replyh with the outstanding slot in each of the states {empty, queued-not-sent, sent, answered, expired/re-used}: the valid reply; every single-bit "
         "corruption of short replies (sampled for long ones); the same reply signed with the client's or another secret; replay after acceptance; a valid reply addressed "
         "to another occupied slot; wrong codes; missing/invalid Message-Authenticator with RequireMessageAuthenticator on/off x transports; random bytes. "
@@ -119,7 +120,9 @@ def build_one(exe, rng, idx):
 
 
 def gen_run(exe, rng, tier):
-    return WH.run_parallel(exe, rng, 240 if tier == "quick" else 5000, build_one)
+    # … and the same packets read off a real stream connection by the real tcpclientrd (a refused packet resets the connection)
+    return (WH.run_parallel(exe, rng, 240 if tier == "quick" else 5000, build_one) +
+            WH.run_parallel(exe, rng, 80 if tier == "quick" else 2000, WH.srvconn_history))
 
 
 def gen(rng, tier):
